@@ -196,12 +196,12 @@ Print Assumptions C06_group_means_all_tls.
 (* ---- client-certificate sites: SNI and Host must agree ----
    For every site set, SNI and Host header: a request that reaches a site demanding client
    certificates (policy set, strict matching not disabled) over TLS is served only if the SNI
-   equals the host name of the Host header (case-insensitively); it is refused (403) only for
-   such a mismatch. *)
+   equals (case-insensitively) the host name of the Host header as the vhost router normalises
+   it — the very name the site was selected by; it is refused (403) only for such a mismatch. *)
 Theorem C06_clientauth_requires_matching_sni :
   forall sites sni rhost i s,
   serve sites (Some sni) rhost = Served i -> nth_error sites i = Some s -> demands (s_tls s) = true ->
-  to_lower sni = to_lower (req_hostname rhost).
+  to_lower sni = route_host rhost.
 Proof. exact strict_sni_host. Qed.
 Print Assumptions C06_clientauth_requires_matching_sni.
 
@@ -209,14 +209,16 @@ Example C06_clientauth_requires_matching_sni_nonvacuous :
   let sites := [mkS (bs "a.com:443"%string) (mkT (bs "a.com"%string) true TLS12 TLS13 [] [] [] true 2 [] false);
                 mkS (bs "b.com:443"%string) (mkT (bs "b.com"%string) true TLS12 TLS13 [] [] [] true 0 [] false)] in
   serve sites (Some (bs "A.com"%string)) (bs "a.com:443"%string) = Served 0 /\
-  serve sites (Some (bs "b.com"%string)) (bs "a.com:443"%string) = Forbidden 0.
-Proof. vm_compute. split; reflexivity. Qed.
+  serve sites (Some (bs "b.com"%string)) (bs "a.com:443"%string) = Forbidden 0 /\
+  (* a second port inside brackets is stripped by the router: the SNI must name what remains *)
+  serve sites (Some (bs "a.com:80"%string)) (bs "[a.com:80]:90"%string) = Forbidden 0.
+Proof. vm_compute. repeat split; reflexivity. Qed.
 
 Theorem C06_forbidden_only_on_mismatch :
   forall sites tls rhost i,
   serve sites tls rhost = Forbidden i ->
   exists sni s, tls = Some sni /\ nth_error sites i = Some s /\ demands (s_tls s) = true /\
-                to_lower sni <> to_lower (req_hostname rhost).
+                to_lower sni <> route_host rhost.
 Proof. exact forbidden_only_on_mismatch. Qed.
 Print Assumptions C06_forbidden_only_on_mismatch.
 
@@ -225,8 +227,8 @@ Print Assumptions C06_forbidden_only_on_mismatch.
    client certificates was governed by settings equal to that site's own (hence the same
    client-certificate policy).  It holds for every site set keyed consistently (vhost key = TLS
    host name, no 0.0.0.0 / :: spellings, no site answering for the router's fallback hosts through
-   "*" labels), every non-empty SNI without surrounding white space and every Host whose name
-   the router does not normalise further than the strict test does. *)
+   "*" labels), every non-empty SNI without surrounding white space and EVERY Host header (the
+   strict test looks at the name the router selected the site by). *)
 Theorem C06_clientauth_policy_governs_partial :
   forall dc bad sites g dflt conn sni rhost v s,
   make_tls_config dc bad (map (fun s => Some (s_tls s)) sites) = MkGroup g ->
@@ -236,7 +238,6 @@ Theorem C06_clientauth_policy_governs_partial :
   mget (bs "*"%string) (vhosts sites) = None ->
   serve sites (Some sni) rhost = Served v -> nth_error sites v = Some s -> demands (s_tls s) = true ->
   trim_space sni = sni -> sni <> [] ->
-  route_host rhost = to_lower (req_hostname rhost) ->
   exists k i c ob, get_config g dflt conn sni = Found k (i, c, ob) /\ build dc bad (s_tls s) = Some ob.
 Proof. exact clientauth_policy_governs. Qed.
 Print Assumptions C06_clientauth_policy_governs_partial.
@@ -249,8 +250,7 @@ Example C06_clientauth_policy_governs_nonvacuous :
   match_host (vhosts sites) (bs "0.0.0.0"%string) = None /\
   match_host (vhosts sites) (bs "::"%string) = None /\
   mget (bs "*"%string) (vhosts sites) = None /\
-  serve sites (Some (bs "X.a.com"%string)) (bs "x.A.com:443"%string) = Served 0 /\
-  route_host (bs "x.A.com:443"%string) = to_lower (req_hostname (bs "x.A.com:443"%string)).
+  serve sites (Some (bs "X.a.com"%string)) (bs "x.A.com:443"%string) = Served 0.
 Proof.
   split; [eexists; vm_compute; reflexivity|].
   split; [intros s [<-|[<-|[<-|[]]]]; vm_compute; split; reflexivity|].
@@ -259,9 +259,8 @@ Qed.
 
 (* Without those side conditions the stronger reading — the handshake of a request served by a client-certificate site was
    governed by that site's own policy — is false of the code.  Witnesses (each replayed on the
-   real server, corpus/C06): empty SNI + empty Host with a local-IP site; a Host whose name is
-   normalised once more by the router than by the strict test ([b:80]:90); 0.0.0.0 and ::
-   sharing the catch-all key without the compatibility assert. *)
+   real server, corpus/C06): empty SNI + empty Host with a local-IP site; 0.0.0.0 and ::
+   sharing the catch-all key without the compatibility assert; a site named "*". *)
 
 
 Theorem C06_clientauth_policy_governs_refuted_empty_names :
@@ -273,16 +272,6 @@ Proof.
   split; [vm_compute; reflexivity|]. split; [vm_compute; reflexivity|]. vm_compute. discriminate.
 Qed.
 Print Assumptions C06_clientauth_policy_governs_refuted_empty_names.
-
-Theorem C06_clientauth_policy_governs_refuted_nested_port :
-  served_under_foreign_policy [mtls_site "b:443"%string "b"%string; open_site ":443"%string ""%string]
-                              [] None (bs "b:80"%string) (bs "[b:80]:90"%string).
-Proof.
-  unfold served_under_foreign_policy. do 7 eexists.
-  split; [vm_compute; reflexivity|]. split; [vm_compute; reflexivity|]. split; [vm_compute; reflexivity|].
-  split; [vm_compute; reflexivity|]. split; [vm_compute; reflexivity|]. vm_compute. discriminate.
-Qed.
-Print Assumptions C06_clientauth_policy_governs_refuted_nested_port.
 
 Theorem C06_clientauth_policy_governs_refuted_unspecified_alias :
   served_under_foreign_policy [mtls_site "0.0.0.0:443"%string "0.0.0.0"%string; open_site "[::]:443"%string "::"%string]
